@@ -95,6 +95,8 @@ pub fn plan(prop: &str, tier: &str) -> Option<Plan> {
                 b.add_cases("seq/bulk", e(e0).set("noclaim", 1), seq::bulk_specs().len() as i64, 40);
             }
             b.add_cases("seq/conv", e(0).set("noclaim", 1), seq::conv_cases(), 40);
+            // the Rc that counted() makes from an upgraded WeakSnapshot
+            b.add("rc/ws-upgrade-vs-attempt", few, &[&[("pre", 2)], &[("pre", 3)]], if quick { 3 } else { 4 });
             if !quick {
                 // the epoch collector's own steps become scheduling points too
                 for s in ["rc/upgrade-vs-attempt", "rc/counted-vs-last-drop", "rc/upgrade-vs-cascade-child"] {
@@ -177,6 +179,8 @@ pub fn plan(prop: &str, tier: &str) -> Option<Plan> {
                     b.units[from..].iter_mut().for_each(|u| u.bound = 1);
                 }
             }
+            // a cascade that outlives three epoch advances (scheduling at the driver's points only)
+            b.add("rc/long-cascade", &[20, 37, 53], &[], 2);
             // the link's own stamp is the only protection (three preemptions, four threads)
             b.add_sliced("rc/handover-into-reclaimed", if quick { &[0i64][..] } else { all }, &[], 3, 16);
             b.goal("rc/stalled-dropper", "cascade-child-destructed");
@@ -228,6 +232,8 @@ pub fn plan(prop: &str, tier: &str) -> Option<Plan> {
             b.add("rc/upgrade-vs-attempt", few, &[&[("pre", 2), ("dist", 16), ("claim", 5)], &[("pre", 2), ("dist", 17), ("claim", 5)]], bq);
             b.add("rc/ws-upgrade-vs-cascade-child", all, &[&[("age", 4), ("pre", 2), ("claim", 5)]], bq);
             b.add("rc/weak-holder", all, &[&[("claim", 5)]], if quick { 2 } else { 4 });
+            // a failed Weak::upgrade leaves the counts of the dead object consistent
+            b.add("rc/weak-through-zero", few, &[&[("destructed", 2), ("pre", 2), ("claim", 5)], &[("destructed", 2), ("pre", 3), ("claim", 5)]], if quick { 3 } else { 4 });
             // the stamp that WeakSnapshot::upgrade leaves must survive a stalled dropper
             b.add_sliced("rc/stalled-dropper", if quick { &[0i64][..] } else { few }, &[&[("k", 0), ("viaweak", 1), ("claim", 5)]], 2, 8);
             let depth = if quick { 4 } else { 6 };
@@ -352,9 +358,9 @@ pub fn plan(prop: &str, tier: &str) -> Option<Plan> {
             // shares they own are part of the cell's contract
             b.add_cases("seq/conv", e(0).set("claim", 8).set("only", 0b1100_0011_0000), seq::conv_cases(), 40);
             let bq = if quick { 2 } else { 3 };
-            b.add("cell/concurrent", if quick { few } else { all }, &[&[("prog", 0)], &[("prog", 1)], &[("prog", 2)], &[("prog", 3)], &[("prog", 4)]], bq);
+            b.add("cell/concurrent", if quick { few } else { all }, &[&[("prog", 0)], &[("prog", 1)], &[("prog", 2)], &[("prog", 3)], &[("prog", 4)], &[("prog", 5)]], bq);
             {
-                // generated family: every pair of programs of k1 + k2 operations over 10 letters
+                // generated family: every pair of programs of k1 + k2 operations over 11 letters
                 use crate::scen::cell::gen_cell_cases as cc;
                 let from = b.units.len();
                 let (k1, k2) = if quick { (1, 2) } else { (2, 2) };
@@ -426,6 +432,10 @@ pub fn plan(prop: &str, tier: &str) -> Option<Plan> {
                     b.add_sliced("ebr/sections", &[0], &[&[("prog", pr), ("bag", bag)]], 2, 8);
                 }
             }
+            // nested guards, one of them reactivated twice, against a deferrer and two advancers:
+            // thread 0 has to be interrupted three times, so only the driver's own points
+            // (its three marks) are scheduling points here
+            b.add("ebr/sections", &[0], &[&[("prog", 13), ("bag", 64), ("classes", 1 << sched::CLASS_DEREF)]], 3);
             // the advancer is re-pinned inside its own try_advance() (finding #10)
             b.add_sliced("ebr/sections", &[0], &[&[("prog", 9), ("bag", 2)]], if quick { 2 } else { 3 }, if quick { 8 } else { 32 });
             if !quick {
@@ -550,7 +560,7 @@ pub fn plan(prop: &str, tier: &str) -> Option<Plan> {
         }
         "C18" => {
             let bq = if quick { 3 } else { 4 };
-            for pr in 0..6 {
+            for pr in 0..7 {
                 b.add("ebr/list", &[0], &[&[("prog", pr)]], bq);
             }
             b.add_sliced("ebr/sections", &[0], &[&[("prog", 4), ("bag", 64), ("claim", 18)]], 2, 4);
@@ -602,6 +612,8 @@ pub fn plan(prop: &str, tier: &str) -> Option<Plan> {
             for &e0 in e0s.iter() {
                 b.add_cases("seq/cascade-decision", e(e0), total, 500);
             }
+            // the decision deep inside a long cascade uses the epoch of the moment
+            b.add("rc/long-cascade", &[20, 37, 53], &[&[("claim", 12)]], 2);
             b.goal("seq/cascade-decision", "child-immediate");
             b.goal("seq/cascade-decision", "child-deferred");
             rule = "end to end: parent->child with every triple of true stamp ages (parent 3..=20, link parent..=24, child 0..=24) x initial epochs: whether the real cascade reclaims the child in the parent's pass must agree with the reference on true ages".to_string().leak();
@@ -634,6 +646,11 @@ pub fn plan(prop: &str, tier: &str) -> Option<Plan> {
         // participant there finalizes it a second time at the last unpin and kills the process
         // in every schedule, including the first one explored
         if u.scenario == "ebr/sections" && u.params.get("prog", 0) == 11 {
+            u.death_is_violation = true;
+        }
+        // the list asserts its own invariants (every entry marked when the list is dropped): a
+        // panic in a program that only inserts, deletes and traverses is the list's verdict
+        if u.scenario == "ebr/list" {
             u.death_is_violation = true;
         }
     }
